@@ -130,18 +130,18 @@ class Ctx:
             self.failed.append(Failed(name, sig or name, _plain(info if extra is None else {'info': _plain(info), 'raised': extra}), None))
         return ok
 
-    def prefer(self, profile, cond):
+    def prefer(self, profile, cond, *fallbacks):
         """Soft constraint for an extra *preferred witness* of this path (symbolic mode; no-op concretely).  After the
         path's ordinary model has been replayed, the runner asks the solver for one more model of the SAME path
-        condition per profile that satisfies as many of the profile's preferences as a greedy pass (in call order)
-        allows, and replays the harness on it in the clean interpreter too: witness_check obligations are evaluated on
+        condition per profile that satisfies as many of the profile's preferences as a greedy pass (in call order;
+        `fallbacks` are tried when `cond` cannot be granted) allows, and replays the harness on it in the clean interpreter too: witness_check obligations are evaluated on
         that witness as well, and its outcome/covers must equal the path's.  Never constrains the path, never used by
         ctx.check.  (C13: the hostile rendering witness.)"""
         if not self.sym:
             return
         if not hasattr(self, 'prefs'):
             self.prefs = {}
-        self.prefs.setdefault(profile, []).append(cond)
+        self.prefs.setdefault(profile, []).append((cond,) + tuple(fallbacks))
 
     def cover(self, tag):
         if tag not in self.covers:
